@@ -20,6 +20,8 @@ struct Req {
     dir: String,
     ceil: Option<String>,
     cross_fs: bool,
+    #[serde(default)]
+    dot_git_only: bool,
 }
 #[derive(Serialize, Deserialize, Debug, Clone)]
 enum Resp {
@@ -56,10 +58,11 @@ fn child_answer(req: &Req) -> Resp {
     }
     let dir = PathBuf::from(&req.dir);
     let cross_fs = req.cross_fs;
+    let dot_git_only = req.dot_git_only;
     let r = std::panic::catch_unwind(move || {
         // the options `gix` itself uses when it honours the environment: ceilings from GIT_CEILING_DIRECTORIES,
         // non-matching ceilings are not an error (git ignores them).
-        let opts = gix_discover::upwards::Options { match_ceiling_dir_or_error: false, cross_fs, ..Default::default() }
+        let opts = gix_discover::upwards::Options { match_ceiling_dir_or_error: false, cross_fs, dot_git_only, ..Default::default() }
             .apply_environment();
         gix_discover::upwards_opts(&dir, opts)
     });
@@ -384,6 +387,12 @@ enum Form {
     AbsDetour,
     /// absolute with trailing slash
     AbsSlash,
+    /// cwd = a layout directory above the start directory (`cwd` field), dir = the bare relative path down to it ("a", "a/b")
+    Down,
+    /// like `Down` with a leading "./"
+    DownDotSlash,
+    /// cwd = start directory, dir = "x/.." (x does not exist)
+    DotDetour,
 }
 
 #[derive(Serialize, Deserialize, Hash, Clone, Debug)]
@@ -392,7 +401,7 @@ struct Case {
     /// start directory relative to the layout root ("" = root)
     start: String,
     form: Form,
-    /// for `Form::Up`: cwd relative to the layout root
+    /// for `Form::Up`, `Form::Down*`: cwd relative to the layout root
     cwd: String,
     /// GIT_CEILING_DIRECTORIES with `$R` standing for the layout root
     ceil: Option<String>,
@@ -474,7 +483,7 @@ fn ceilings_for(start: &str, depth: usize, thorough: bool) -> Vec<Option<String>
         v.push(Some("$R/_store/nomatch".into()));
     }
     // two ceilings, one of them the start directory itself (which has no effect), the other its parent: both orders
-    if !thorough && anc.len() >= 2 {
+    if !thorough && anc.len() >= 2 && (start.ends_with("leaf") || start.ends_with("refs/heads") || start.ends_with("objects")) {
         let (me, parent) = (&anc[anc.len() - 1], &anc[anc.len() - 2]);
         v.push(Some(format!("{me}:{parent}")));
         v.push(Some(format!("{parent}:{me}")));
@@ -542,11 +551,17 @@ fn generate(thorough: bool, max_depth: usize, emit: &mut dyn FnMut(Case)) {
                 for form in forms {
                     emit(Case { layout: kinds.to_vec(), start: start.clone(), form, cwd: String::new(), ceil: ceil.clone() });
                 }
+                emit(Case { layout: kinds.to_vec(), start: start.clone(), form: Form::DotDetour, cwd: String::new(), ceil: ceil.clone() });
                 for other in &starts {
                     if let Some(n) = is_below(other, start) {
                         if n <= if thorough { 3 } else { 2 } {
                             emit(Case { layout: kinds.to_vec(), start: start.clone(), form: Form::Up, cwd: other.clone(), ceil: ceil.clone() });
                         }
+                    }
+                    // the root as cwd is `Form::Rel`
+                    if !other.is_empty() && is_below(start, other).is_some() {
+                        emit(Case { layout: kinds.to_vec(), start: start.clone(), form: Form::Down, cwd: other.clone(), ceil: ceil.clone() });
+                        emit(Case { layout: kinds.to_vec(), start: start.clone(), form: Form::DownDotSlash, cwd: other.clone(), ceil: ceil.clone() });
                     }
                 }
             }
@@ -607,8 +622,13 @@ fn evaluate_inner(c: &Case) -> Verdict {
             let n = is_below(&c.cwd, &c.start).unwrap_or_else(|| vkit::machinery!("cwd {:?} not below start {:?}", c.cwd, c.start));
             (join(&lay.root, &c.cwd), vec![".."; n].join("/"))
         }
+        Form::Down | Form::DownDotSlash => {
+            let rest = c.start.strip_prefix(c.cwd.as_str()).and_then(|r| r.strip_prefix('/')).unwrap_or_else(|| vkit::machinery!("start {:?} not below cwd {:?}", c.start, c.cwd));
+            (join(&lay.root, &c.cwd), if c.form == Form::Down { rest.to_string() } else { format!("./{rest}") })
+        }
+        Form::DotDetour => (start_abs.clone(), "x/..".to_string()),
     };
-    let req = Req { cwd: cwd.to_str().unwrap().to_string(), dir, ceil: ceil.clone(), cross_fs: false };
+    let req = Req { cwd: cwd.to_str().unwrap().to_string(), dir, ceil: ceil.clone(), cross_fs: false, dot_git_only: false };
     judge(&want, &req, &lay.worktree_of)
 }
 
@@ -708,6 +728,9 @@ struct FsCase {
     /// GIT_DISCOVERY_ACROSS_FILESYSTEM=1 / Options::cross_fs
     cross_fs: bool,
     ceil: Option<String>,
+    /// Options::dot_git_only (all repositories of this fixture are `.git` directories, so git's answer is the same)
+    #[serde(default)]
+    dot_git_only: bool,
 }
 
 struct Mount(PathBuf);
@@ -775,12 +798,17 @@ fn fs_generate(emit: &mut dyn FnMut(FsCase)) {
             let mut ceils = vec![None];
             ceils.extend(ancestors_or_self(start).into_iter().map(Some));
             for ceil in ceils {
-                for form in [Form::Abs, Form::Dot, Form::Rel] {
-                    emit(FsCase { start: start.to_string(), form, cwd: String::new(), cross_fs, ceil: ceil.clone() });
-                }
-                for other in FS_STARTS {
-                    if is_below(other, start).is_some() {
-                        emit(FsCase { start: start.to_string(), form: Form::Up, cwd: other.to_string(), cross_fs, ceil: ceil.clone() });
+                for dot_git_only in [false, true] {
+                    for form in [Form::Abs, Form::Dot, Form::Rel] {
+                        emit(FsCase { start: start.to_string(), form, cwd: String::new(), cross_fs, ceil: ceil.clone(), dot_git_only });
+                    }
+                    for other in FS_STARTS {
+                        if is_below(other, start).is_some() {
+                            emit(FsCase { start: start.to_string(), form: Form::Up, cwd: other.to_string(), cross_fs, ceil: ceil.clone(), dot_git_only });
+                        }
+                        if is_below(start, other).is_some() {
+                            emit(FsCase { start: start.to_string(), form: Form::Down, cwd: other.to_string(), cross_fs, ceil: ceil.clone(), dot_git_only });
+                        }
                     }
                 }
             }
@@ -791,8 +819,19 @@ fn fs_generate(emit: &mut dyn FnMut(FsCase)) {
 fn fs_evaluate(c: &FsCase, root: &Path, worktree_of: &HashMap<String, String>) -> Verdict {
     let start_abs = join(root, &c.start);
     let ceil = c.ceil.as_ref().map(|s| s.replace("$R", root.to_str().unwrap()));
-    let want = git_answer_fs(&start_abs, ceil.as_deref(), c.cross_fs);
-    ORACLE_CALLS.fetch_add(1, std::sync::atomic::Ordering::Relaxed);
+    // git's answer depends on neither the spelling nor dot_git_only (all repositories here are `.git` directories)
+    static FS_ORACLE: Mutex<Option<HashMap<(String, bool, Option<String>), GitAns>>> = Mutex::new(None);
+    let key = (c.start.clone(), c.cross_fs, c.ceil.clone());
+    let cached = FS_ORACLE.lock().unwrap().get_or_insert_with(HashMap::new).get(&key).cloned();
+    let want = match cached {
+        Some(a) => a,
+        None => {
+            let a = git_answer_fs(&start_abs, ceil.as_deref(), c.cross_fs);
+            ORACLE_CALLS.fetch_add(1, std::sync::atomic::Ordering::Relaxed);
+            FS_ORACLE.lock().unwrap().get_or_insert_with(HashMap::new).insert(key, a.clone());
+            a
+        }
+    };
     let (cwd, dir) = match c.form {
         Form::Abs => (root.to_path_buf(), start_abs.to_str().unwrap().to_string()),
         Form::Dot => (start_abs.clone(), ".".to_string()),
@@ -801,9 +840,13 @@ fn fs_evaluate(c: &FsCase, root: &Path, worktree_of: &HashMap<String, String>) -
             let n = is_below(&c.cwd, &c.start).unwrap_or_else(|| vkit::machinery!("cwd {:?} not below start {:?}", c.cwd, c.start));
             (join(root, &c.cwd), vec![".."; n].join("/"))
         }
+        Form::Down => {
+            let rest = c.start.strip_prefix(c.cwd.as_str()).and_then(|r| r.strip_prefix('/')).unwrap_or_else(|| vkit::machinery!("start {:?} not below cwd {:?}", c.start, c.cwd));
+            (join(root, &c.cwd), rest.to_string())
+        }
         _ => vkit::machinery!("form not used in fs-boundary"),
     };
-    let req = Req { cwd: cwd.to_str().unwrap().to_string(), dir, ceil, cross_fs: c.cross_fs };
+    let req = Req { cwd: cwd.to_str().unwrap().to_string(), dir, ceil, cross_fs: c.cross_fs, dot_git_only: c.dot_git_only };
     let crosses = c.start.starts_with("outer/mnt") && !c.start.starts_with("outer/mnt/inner");
     match judge(&want, &req, worktree_of) {
         Ok(p) => {
@@ -824,8 +867,8 @@ pub fn run(run: &'static Run) {
     run.rule(format!(
         "layout = chain of <= {max_depth} nested directories, each of kind {:?} (plus side directories _store, _main, _mainbare.git and a plain leaf); \
          start = every directory of the layout incl. directories inside git dirs and private worktree git dirs; \
-         spelling = absolute | '.' with cwd=start | relative from the root | '../'*n from every directory n<={} levels below{}; \
-         GIT_CEILING_DIRECTORIES = unset | each ancestor-or-self of the start up to the layout root | a non-matching directory | the pair (start, parent of start) in both orders{}. \
+         spelling = absolute | '.' with cwd=start | 'x/..' with cwd=start | relative from the root | bare relative ('a', 'a/b') and './a' from every layout directory above the start | '../'*n from every directory n<={} levels below{}; \
+         GIT_CEILING_DIRECTORIES = unset | each ancestor-or-self of the start up to the layout root | a non-matching directory | the pair (start, parent of start) in both orders for the deepest starts (leaf, refs/heads, objects){}. \
          Non-trivial = git finds a repository, or a ceiling was set.",
         kinds_alphabet(thorough),
         if thorough { 3 } else { 2 },
@@ -876,7 +919,7 @@ pub fn run(run: &'static Run) {
 
     // filesystem boundary: needs the privilege to mount a tmpfs; skipped (and said so) otherwise
     if let Some((root, guard, worktree_of)) = build_fs_fixture() {
-        run.rule("fs-boundary: repository `outer`, a tmpfs mounted at outer/mnt holding a plain directory and a repository `inner`; every start directory x spelling (abs, '.', relative, '../'*n) x cross_fs/GIT_DISCOVERY_ACROSS_FILESYSTEM in {off,on} x ceiling in {unset, each ancestor-or-self}");
+        run.rule("fs-boundary: repository `outer`, a tmpfs mounted at outer/mnt holding a plain directory and a repository `inner`; every start directory x spelling (abs, '.', relative from the root and from every directory above, '../'*n) x dot_git_only in {off,on} x cross_fs/GIT_DISCOVERY_ACROSS_FILESYSTEM in {off,on} x ceiling in {unset, each ancestor-or-self}");
         run.sub_with("fs-boundary", vkit::Opts::default().chunk(256), fs_generate, |c: &FsCase| fs_evaluate(c, &root, &worktree_of));
         drop(guard);
         if !run.is_replay() {
